@@ -9,15 +9,18 @@ EXTENDS FluxConv, TLC
 CONSTANTS MaxLen, Levels, NegLevels      \* input levels (milli-mag): Levels and the negatives of NegLevels
 VARIABLES c, exp
 
-WaveCase(fn, k, pat, l) == [type |-> "wave", fn |-> fn, kind |-> k, pat |-> pat, layout |-> l]
-ABCase(form, b, m0, l) == [type |-> "ab", form |-> form, band |-> b, m0 |-> m0, layout |-> l]
+WaveCase(fn, k, pat, l, w) == [type |-> "wave", fn |-> fn, kind |-> k, pat |-> pat, layout |-> l, width |-> w]
+ABCase(form, b, m0, l, nt) == [type |-> "ab", form |-> form, band |-> b, m0 |-> m0, layout |-> l, ntype |-> nt]
 
 Init ==
-  \/ /\ \/ \E fn \in Fns : \E k \in ScalarKinds : \E cl \in Classes : c = WaveCase(fn, k, <<cl>>, "plain")
+  \/ /\ \/ \E fn \in Fns : \E k \in ScalarKinds : \E cl \in Classes : \E v \in Variants(k) :
+              Fits(v[2], <<cl>>) /\ c = WaveCase(fn, k, <<cl>>, v[1], v[2])
         \/ \E fn \in Fns : \E k \in ArrayKinds : \E n \in 1..MaxLen : \E pat \in [1..n -> Classes] :
-              \E l \in LayoutsOf(k) : c = WaveCase(fn, k, pat, l)
+              \E v \in Variants(k) : Fits(v[2], pat) /\ c = WaveCase(fn, k, pat, v[1], v[2])
      /\ exp = Expected(c)
-  \/ /\ \E form \in Forms : \E b \in DOMAIN Bands : \E m0 \in (Levels \cup {0 - l : l \in NegLevels}) : \E l \in ABLayouts : c = ABCase(form, b, m0, l)
+  \/ /\ \E form \in Forms : \E b \in DOMAIN Bands : \E m0 \in (Levels \cup {0 - l : l \in NegLevels}) : \E l \in ABLayouts :
+          \/ c = ABCase(form, b, m0, l, "float64")
+          \/ \E w \in Widths : l = "plain" /\ ABIntegral(ABCase(form, b, m0, l, w)) /\ c = ABCase(form, b, m0, l, w)
      /\ exp = ExpectedAB(c)
 Next == UNCHANGED <<c, exp>>
 
